@@ -977,6 +977,20 @@ impl Sim {
                 }
                 self.stat("world.fork");
             }
+            Action::SideFork { src, back, n } => {
+                self.last_event_kind = "sidefork".into();
+                if src >= self.world.branches.len() {
+                    return;
+                }
+                let tip = self.world.tip_number(src);
+                let at = tip.saturating_sub(back.max(1));
+                let tag = self.world.branches.len() as u64;
+                let nb = self.world.fork(src, at, tag);
+                for _ in 0..n.min(back.max(1)) {
+                    self.world.mine(nb, abs_now(self.now));
+                }
+                self.stat("world.side_fork");
+            }
             Action::SwitchBranch { peer, branch } => {
                 self.last_event_kind = "switch".into();
                 if peer >= self.peers.len() || branch >= self.world.branches.len() {
